@@ -509,6 +509,8 @@ def run(chk):
     before = len(chk.instances)
     chk.rule('C15.R', 'shared with C15: the library functions evaluated (E6c) against their reference models')
     ref_ok = chk.guard('C15.R', c15.check_reference_sim, chk)
+    split_ok = chk.guard('C15.R', c15.check_regex_split_sim, chk)       # diffLines splits its inputs into lines with regexSplit: empty lines must survive
+    ref_ok = None if (ref_ok is None or split_ok is None) else (ref_ok and split_ok)
     chk.readback(ref_ok)('C15.H', c15.check_wrappers, chk)
     keep = ('regexSplit', 'arraySlice', 'arrayGet', 'arrayLength', 'arrayPush', 'arrayExtend', 'arrayCopy')
     chk.instances[before:] = [i for i in chk.instances[before:] if any(k in i['instance'] for k in keep) or i['verdict'] != 'OK']
